@@ -25,6 +25,7 @@ CLAIMS = {
 }
 
 CLAIMS.update({
+ 'C37': ('proof', 'pending text', 'pending', '5 C37'),
  'C05': ('proof',
          'Chain of contracts on real functions, each link for all inputs: (1) categorize_harmful_diff_node adds exactly the '
          'documented harmful category for every combination of the 29 detection predicates, to the node and its canonical node; '
